@@ -420,12 +420,17 @@ class SqlImpl(TableImpl):
                 needed.append(original_select[0])
 
             # resolve potential column name collisions in the subquery
+            taken = {sqa_expr[uid].name for uid in needed if uid in sqa_expr}
             for uid in needed:
                 if uid in sqa_expr:
                     name = sqa_expr[uid].name
                     name_before[uid] = name
                     if c := cnt.get(name):
+                        # the suffixed name must not be the name of another column
+                        while f"{name}_{c}" in taken:
+                            c += 1
                         name_in_subquery[uid] = f"{name}_{c}"
+                        taken.add(name_in_subquery[uid])
                         cnt[name] = c + 1
                     else:
                         name_in_subquery[uid] = name
